@@ -25,13 +25,15 @@ const RESTR: u32 = 4;
 const LIGHT: u32 = 8;
 // bit4 = the root's initial transition is internal (reader-built models): the root is never in the configuration
 const ROOTI: u32 = 16;
+// bit5 = the pre-state's configuration list is in reverse document order (the configuration is kept in entry order, which is not document order)
+const REVC: u32 = 32;
 
 harnesses! {
     // per-change tier: one fully symbolic transition, event selection
     h_sc1_s0 => sc_step(0, 1, 0), h_sc1_s1 => sc_step(1, 1, 0), h_sc1_s2 => sc_step(2, 1, 0), h_sc1_s3 => sc_step(3, 1, LIGHT),
     h_sc1_s4 => sc_step(4, 1, 0), h_sc1_s5 => sc_step(5, 1, 0), h_sc1_s6 => sc_step(6, 1, 0), h_sc1_s7 => sc_step(7, 1, LIGHT),
     h_sc1_s8 => sc_step(8, 1, LIGHT), h_sc1_s9 => sc_step(9, 1, 0), h_sc1_s10 => sc_step(10, 1, LIGHT), h_sc1_s11 => sc_step(11, 1, LIGHT),
-    h_sc1_s12 => sc_step(12, 1, LIGHT),
+    h_sc1_s12 => sc_step(12, 1, LIGHT), h_sc1_s13 => sc_step(13, 1, LIGHT),
     // event-less selection and late binding on the small shapes
     h_sc1e_s1 => sc_step(1, 1, EVL | LATE), h_sc1e_s4 => sc_step(4, 1, EVL | LATE), h_sc1e_s6 => sc_step(6, 1, EVL | LATE),
     // two transitions, the second one restricted to the region of its source (conflict / pre-emption inside parallel states)
@@ -43,7 +45,7 @@ harnesses! {
     h_sc2_s4 => sc_step(4, 2, 0), h_sc2_s5 => sc_step(5, 2, LIGHT), h_sc2_s6 => sc_step(6, 2, 0), h_sc2_s7 => sc_step(7, 2, LIGHT),
     h_sc2_s8 => sc_step(8, 2, LIGHT), h_sc2_s9 => sc_step(9, 2, 0), h_sc2_s10 => sc_step(10, 2, LIGHT), h_sc2_s11 => sc_step(11, 2, LIGHT),
     // reader-built root (never entered): per-change tier on one shape of each family
-    h_sc1i_s1 => sc_step(1, 1, ROOTI), h_sc1i_s3 => sc_step(3, 1, LIGHT | ROOTI), h_sc1i_s4 => sc_step(4, 1, ROOTI), h_sc1i_s6 => sc_step(6, 1, ROOTI), h_sc1i_s7 => sc_step(7, 1, LIGHT | ROOTI),
+    h_sc1i_s1 => sc_step(1, 1, ROOTI | REVC), h_sc1i_s3 => sc_step(3, 1, LIGHT | ROOTI | REVC), h_sc1i_s4 => sc_step(4, 1, ROOTI | REVC), h_sc1i_s6 => sc_step(6, 1, ROOTI | REVC), h_sc1i_s7 => sc_step(7, 1, LIGHT | ROOTI | REVC),
     h_start_all => sc_startup(),
 }
 
@@ -150,7 +152,8 @@ fn sc_step(shape_ix: u32, nt: u32, mode: u32) {
     }
     let late = mode & LATE != 0 && vnd_bool(40);
     let m = Model { sh, ts, late };
-    let (conf, hv) = sym_prestate(&m.sh);
+    let (mut conf, hv) = sym_prestate(&m.sh);
+    if mode & REVC != 0 { conf.reverse(); }
     if mode & LIGHT != 0 {
         // light mode explores only pre-states in which every symbolic transition's source is active (decided before anything is built)
         let pm = mask_of(&conf);
